@@ -6,7 +6,12 @@
     Commands that accept [--exclude] in this build (addFlagExclude: cmdapi/schema.go
     schemaApplyCmd, schemaDiffCmdWithFlags; cmdapi/cmdapi_oss.go schemaInspectCmdWithFlags):
     [schema inspect], [schema apply], [schema diff].  [migrate diff/apply/lint] have no such flag and
-    never read [Env.Exclude] (migrateDiffRun builds its stateReaderConfig without [exclude]).
+    never read [Env.Exclude] (migrateDiffRun builds its stateReaderConfig without [exclude];
+    migrate.PlanWithExclude and Env.MigrationExclude have no caller in cmd/atlas).  [schema clean] has no
+    such flag either: its PreRunE calls setSchemaEnvFlags, whose maySetFlag finds no "exclude" flag
+    and does nothing, and schemaCleanRun inspects with nil options: the raw state against the empty one
+    (harness: rawT = the empty schema).  For [migrate diff] rawF is the replay of the directory on the
+    dev database, rawT the desired HCL state.
 
     Route of the flag (github.com/spf13/pflag string_slice.go): every occurrence [--exclude v] is
     [stringSliceValue.Set(v)]: [readAsCSV(v)] (encoding/csv, Comma ','), the FIRST Set replaces the
@@ -98,11 +103,11 @@ Definition maySetFlag (s : sliceval) (envVal : bytes) : eres sliceval :=
 Definition setSchemaEnvFlags (s : sliceval) (envExclude : list bytes) : eres sliceval :=
   maySetFlag s (join_comma envExclude).
 
-Inductive command := CInspect | CApply | CDiff | CMigrateDiff.
+Inductive command := CInspect | CApply | CDiff | CMigrateDiff | CClean.
 
 (** addFlagExclude is called for the command *)
 Definition has_exclude_flag (c : command) : bool :=
-  match c with CMigrateDiff => false | _ => true end.
+  match c with CMigrateDiff | CClean => false | _ => true end.
 
 (** one run of the CLI: the command, the values of the [--exclude] occurrences, the [exclude]
     attribute of the env block selected with [--env] ([None]: no env selected; selectEnv then
@@ -126,7 +131,7 @@ Definition effective (i : invocation) : eres (list bytes) :=
 (** ** the states a command reads.  Both are realms with the one schema the SQLite URL is bound to
     (the first schema of the realm); [lf]/[lt]: link mode of the "from"/"to" state
     (inspected SQLite database: indexes not linked; HCL file: linked). *)
-Definition to_is_hcl (c : command) : bool := match c with CApply => true | _ => false end.
+Definition to_is_hcl (c : command) : bool := match c with CApply | CMigrateDiff => true | _ => false end.
 Definition link_db : bool * bool := (false, true).
 Definition link_hcl : bool * bool := (true, true).
 Definition link_to (c : command) : bool * bool := if to_is_hcl c then link_hcl else link_db.
